@@ -85,6 +85,12 @@ func (g *gzipResponseWriter) Finish() error {
 
 	body := g.buf.Bytes()
 
+	// never encode a response that already carries a content coding
+	if g.Header().Get("Content-Encoding") != "" {
+		_, err := g.ResponseWriter.Write(body)
+		return err
+	}
+
 	clHeader := g.Header().Get("Content-Length")
 	if clHeader != "" {
 		cl, err := strconv.Atoi(clHeader)
